@@ -31,15 +31,20 @@ def lines_of(text):
 class crtf_single_region_text:
     cases = {k + '-' + f + '-' + i: {'kind': k, 'frame': f, 'inc': i} for k in KINDS for f in FRAMES for i in ('absent', 'false', 'true')
              if f == 'fk5' or (k in ('circle', 'ellipse') and i == 'absent')}
+    cases.update({k + '-fk5-' + i + '-' + t: {'kind': k, 'frame': 'fk5', 'inc': i, 'typ': t}
+                  for k in ('circle', 'line') for i in ('absent', 'false', 'true') for t in ('ann', 'reg')})
 
-    def setup(B, kind='circle', frame='fk5', inc='absent'):
+    def setup(B, kind='circle', frame='fk5', inc='absent', typ=None):
         m = {} if inc == 'absent' else {'include': inc == 'true'}
-        return dict(r=region(B, kind, frame, m), kind=kind, frame=frame, inc=inc)
+        if typ is not None:
+            m['type'] = typ
+        return dict(r=region(B, kind, frame, m), kind=kind, frame=frame, inc=inc, typ=typ)
     call = lambda r, frame: serialize([r], frame)
     post = {
         'header_and_frame': lambda frame, result: lines_of(result)[0] == '#CRTFv0' and lines_of(result)[1] == 'global coord=' + COORD[frame],
-        'one_region_line_per_casa_conventions': lambda r, kind, inc, result: len(lines_of(result)) == 3 and text_equal(
-            lines_of(result)[2], ('-' if inc == 'false' else '') + shape_text(kind, r)),
+        # exclusion is the leading '-', an annotation is marked by 'ann ' after it; neither hides the other
+        'one_region_line_per_casa_conventions': lambda r, kind, inc, typ, result: len(lines_of(result)) == 3 and text_equal(
+            lines_of(result)[2], ('-' if inc == 'false' else '') + ('ann ' if typ == 'ann' else '') + shape_text(kind, r)),
     }
 
 
